@@ -137,6 +137,62 @@ func VerifC12TAOptOut() {
 	}
 }
 
+// VerifC12TAOptOutReconfigure: the opt-outs of VerifC12TAOptOut across a
+// reconfiguration: c0 is created opted out, the unchanged configuration is
+// re-applied through the real Reconfigure (grants are cloned and reinstated),
+// another container is admitted: c0 is still never told a cpuset / other
+// memory nodes.
+func VerifC12TAOptOutReconfigure() {
+	machine := verifParam("machine", 0)
+	_, _, ncpu := verifMachine(machine)
+	allowed, reserved, isolated := verifSymbolicConstraints(ncpu, 0)
+	kind := 1 + verifChoice("optout", verifOptCount-1)
+	mkcfg := func() *cfgapi.Config {
+		cfg := verifTAConfig("cpuset:0")
+		if kind == verifOptNoPinCPU {
+			cfg.PinCPU = false
+		}
+		if kind == verifOptNoPinMemory {
+			cfg.PinMemory = false
+		}
+		return cfg
+	}
+	w := verifNewPolicy(machine, allowed, reserved, isolated, mkcfg())
+	c0 := w.newContainer(int64(verifParam("maxMilli", 2000)))
+	switch kind {
+	case verifOptCPUPreserveContainer:
+		c0.pod.annotations[cache.PreserveCpuKey+"/container."+c0.name] = "true"
+	case verifOptCPUPreservePod:
+		c0.pod.annotations[cache.PreserveCpuKey+"/pod"] = "true"
+	case verifOptCPUPreserveBare:
+		c0.pod.annotations[cache.PreserveCpuKey] = "true"
+	case verifOptMemPreserve:
+		c0.pod.annotations[cache.PreserveMemoryKey] = "true"
+	}
+	c0.mems = "0" // what the runtime had given it
+	memsBefore := c0.mems
+	if err := w.p.AllocateResources(c0); err != nil {
+		return
+	}
+	if err := w.p.Reconfigure(mkcfg()); err != nil {
+		verifAssert("C12.ta.reconfigure.unchanged-config-accepted", false)
+		return
+	}
+	verifCover("optout-reconfigured")
+	for k := 0; k < verifParam("after", 1); k++ {
+		c := w.newContainer(int64(verifParam("maxMilli", 2000)))
+		w.p.AllocateResources(c)
+	}
+	switch kind {
+	case verifOptCPUPreserveContainer, verifOptCPUPreservePod, verifOptCPUPreserveBare, verifOptNoPinCPU:
+		verifAssert("C12.ta.reconfigure.cpu-optout-never-told-cpuset", c0.cpusCalls == 0)
+	case verifOptMemPreserve:
+		verifAssert("C12.ta.reconfigure.memory-preserve-mems-unchanged", c0.mems == memsBefore)
+	case verifOptNoPinMemory:
+		verifAssert("C12.ta.reconfigure.pinmemory-off-mems-unchanged", c0.mems == memsBefore)
+	}
+}
+
 // ---- C13
 
 type verifCtrView struct {
@@ -338,4 +394,50 @@ func VerifC09TAMemQuiescence() {
 		pristine = verifAnd(pristine, ma.ZoneNumUsers(z) == 0)
 	}
 	verifAssert("C09.ta.memory-zones-pristine", pristine)
+}
+
+// ---- C11 (topology-aware part)
+
+// VerifC11TAResync: a restart whose predecessor had recorded assignments the
+// runtime never received (the reply carrying them was lost). A first policy
+// instance admits containers and records their cpusets in the cache; a second
+// instance on the same machine and configuration is synchronised with the
+// same containers the way Synchronize does it (policy.Sync): every container
+// that holds a grant afterwards was told its cpuset and memory nodes again in
+// this incarnation, so that the reply of Synchronize carries them.
+func VerifC11TAResync() {
+	machine := verifParam("machine", 0)
+	_, _, ncpu := verifMachine(machine)
+	allowed, reserved, isolated := verifSymbolicConstraints(ncpu, 0)
+	w := verifNewPolicy(machine, allowed, reserved, isolated, verifDefaultConfig())
+	for k := 0; k < verifParam("allocs", 2); k++ {
+		c := w.newContainer(int64(verifParam("maxMilli", 2000)))
+		w.p.AllocateResources(c)
+	}
+	// restart
+	w2 := verifNewPolicy(machine, allowed, reserved, isolated, verifDefaultConfig())
+	var live []cache.Container
+	for _, c := range w.ctrs {
+		if w.grantOf(c) == nil {
+			continue
+		}
+		c.cpusCalls, c.memsCalls = 0, 0
+		w2.ctrs = append(w2.ctrs, c)
+		w2.cache.containers[c.id] = c
+		live = append(live, c)
+	}
+	if len(live) == 0 {
+		return
+	}
+	verifCover("restarted-with-containers")
+	err := w2.p.Sync(live, nil)
+	verifAssert("C11.ta.sync-succeeds", err == nil)
+	told := true
+	for _, c := range w2.ctrs {
+		if w2.grantOf(c) == nil {
+			continue
+		}
+		told = verifAnd(told, verifAnd(c.cpusCalls > 0, c.memsCalls > 0))
+	}
+	verifAssert("C11.ta.resync-tells-every-assignment-again", told)
 }
